@@ -31,6 +31,8 @@ def _texts(real, K):
 def _k23_job(job):
     """real, K, perm (order of the declarations in the text), split (None = one library; else tuple of file index per position)"""
     real, K, perm, split = job
+    cased = real == 'alias_cased'; casebits = {}
+    if cased: real = 'alias'
     ctx = _CTX; part = Part()
     P = ctx.program()
     names = K07._names(real, K)
@@ -55,11 +57,19 @@ def _k23_job(job):
                     e = M.fresh_bool('e_%d_%d' % (i, j)); sym[(i, j)] = e
                     mapping['t%d_%d' % (i, j)] = (lambda t: (lambda orig: TC.ident_sym(t, orig)))(z3.If(e, ids[names[j]], ids['int']))
         else:
+            upper = {n: models.str_term(M, Str(n.upper())) for n in names} if cased else None
             for i in range(K):
                 b = M.fresh_bv('base_%d' % i, 8); M.assume(z3.ULE(b, K)); sym[i] = b
                 t = ids['int']
                 for j in range(K): t = z3.If(b == j, ids[names[j]], t)
-                mapping['b%d' % i] = (lambda t: (lambda orig: TC.ident_sym(t, orig)))(t)
+                if cased:
+                    # the reference may be spelled in upper case: another spelling of the same name
+                    cb = M.fresh_bool('upper_%d' % i); casebits[i] = cb
+                    tw = t
+                    for j in range(K): tw = z3.If(z3.And(cb, b == j), upper[names[j]], tw)
+                    mapping['b%d' % i] = (lambda tw, t: (lambda orig: TC.ident_sym(tw, orig, t)))(tw, t)
+                else:
+                    mapping['b%d' % i] = (lambda t: (lambda orig: TC.ident_sym(t, orig)))(t)
         lib = LC.subst_names(lib, mapping)
         if split is None: return M.call_fn(k_apply, [lib])
         nfiles = max(split) + 1
@@ -96,10 +106,11 @@ def _k23_job(job):
         if real == 'fb': edges = sorted((i, j) for (i, j), e in sym.items() if z3.is_true(m.eval(e, True)))
         else: edges = [(i, m.eval(b, True).as_long()) for i, b in sym.items() if m.eval(b, True).as_long() < K]
         cyc = TC.reach_cyclic(K, edges)
-        decls = [d for d in _decls(real, K, edges)]
+        ups = {i for i, cb in casebits.items() if z3.is_true(m.eval(cb, True))}
+        decls = [d for d in _decls(real, K, edges, ups)]
         order = [decls[i] for i in perm]
         files = [''.join(order[pos] for pos in range(K) if (split[pos] if split else 0) == f) for f in range((max(split) + 1) if split else 1)]
-        tag = '%s/perm%s%s' % (real, ''.join(map(str, perm)), ('/files' + ''.join(map(str, split))) if split else '')
+        tag = '%s/perm%s%s' % (real + ('-respelled' if ups else ''), ''.join(map(str, perm)), ('/files' + ''.join(map(str, split))) if split else '')
         wit = {'realisation': real, 'edges': edges, 'files': files}
         if pr.panic:
             part.add('C06/K2/panic/' + tag, 'panic: ' + pr.panic.msg, wit, ('order', (files, cyc))); return
@@ -130,12 +141,12 @@ def _k23_job(job):
     part.queries += M.stats['smt']; part.encoded = set(M.encoded); part.models = set(M.models_used)
     return part
 
-def _decls(real, K, edges):
+def _decls(real, K, edges, ups=()):
     names = K07._names(real, K); E = set(edges)
     if real == 'fb':
         return ['FUNCTION_BLOCK fb%d\nVAR\n%sEND_VAR\nEND_FUNCTION_BLOCK\n' % (i, ''.join('  v%d_%d : %s;\n' % (i, j, names[j] if (i, j) in E else 'INT') for j in range(K))) for i in range(K)]
     d = dict(edges)
-    return ['TYPE\n  al%d : %s;\nEND_TYPE\n' % (i, names[d[i]] if i in d else 'INT') for i in range(K)]
+    return ['TYPE\n  al%d : %s;\nEND_TYPE\n' % (i, (names[d[i]].upper() if i in ups else names[d[i]]) if i in d else 'INT') for i in range(K)]
 
 @replay_factory('order')
 def _replay_order(files, cyc):
@@ -145,7 +156,18 @@ def _replay_order(files, cyc):
         if 'panic' in r: return True, r
         codes = sorted(d['code'] for d in r.get('diagnostics', [])); mcodes = sorted(d['code'] for d in merged.get('diagnostics', []))
         # order/partition dependence: the same declarations as one unit give a different verdict, or the recursion verdict is wrong
-        return (('P0010' in codes) != cyc) or (codes != mcodes and bool(r.get('ok')) != bool(merged.get('ok'))), {'files': files, 'codes': codes, 'codes_single_file': mcodes, 'reference_cyclic': cyc}
+        bad = (('P0010' in codes) != cyc) or (codes != mcodes and bool(r.get('ok')) != bool(merged.get('ok')))
+        det = {'files': files, 'codes': codes, 'codes_single_file': mcodes, 'reference_cyclic': cyc}
+        if not bad:
+            # ... or another order of the same declarations gives a different verdict
+            decls = [d for d in re.split(r'(?<=END_FUNCTION_BLOCK\n)|(?<=END_TYPE\n)', ''.join(files)) if d.strip()]
+            if 1 < len(decls) <= 4:
+                seen = {}
+                for p in itertools.permutations(decls):
+                    rr = ctx.replay({'cmd': 'analyze', 'sources': [''.join(p)]})
+                    seen[''.join(p)] = tuple(sorted(set(d['code'] for d in rr.get('diagnostics', []))))
+                if len(set(seen.values())) > 1: bad = True; det['verdicts_over_orders'] = sorted(map(list, set(seen.values())))
+        return bad, det
     return rp
 
 @kernel('K2 toposort.order_independence')
@@ -158,7 +180,9 @@ def k2(ctx, kr):
         for perm in itertools.permutations(range(K)): jobs.append((real, K, perm, None))
     if ctx.tier == 'quick':
         for perm in itertools.permutations(range(3)): jobs.append(('alias', 3, perm, None))
-    kr.bounds = 'every permutation of the declarations of every function-block graph on %d nodes and every alias graph on %d nodes (reference edges symbolic); toposort tie-breaks nondeterministic' % (K, 3)
+    # alias references optionally spelled in upper case (a declaration `al1` referenced as `AL1`)
+    for perm in itertools.permutations(range(3)): jobs.append(('alias_cased', 3, perm, None))
+    kr.bounds = 'every permutation of the declarations of every function-block graph on %d nodes and every alias graph on %d nodes (reference edges symbolic; also with every alias reference optionally spelled in upper case); toposort tie-breaks nondeterministic' % (K, 3)
     for part in par_map(_k23_job, jobs): merge_part(kr, part)
     P = ctx.program()
     kr.functions = fn_paths(P, getattr(kr, '_enc', set()))
